@@ -178,10 +178,43 @@ def rename_innermost(tree):
     return t if done[0] else None
 
 
+def with_opref(tree):
+    """Variant: the first reference inside a scope becomes an inferred-width instruction operand
+    (`lda name`), which the assembler already evaluates while labels are resolved."""
+    done = [False]
+
+    def go(items, depth):
+        out = []
+        for it in items:
+            if it[0] == "ref" and depth > 0 and not done[0] and "." not in it[1]:
+                done[0] = True
+                out.append(("ref", it[1], "op"))
+            elif it[0] == "scope":
+                out.append(("scope", it[1], it[2], go(it[3], depth + 1), it[4]))
+            else:
+                out.append(it)
+        return out
+
+    t = go(tree, 0)
+    return t if done[0] else None
+
+
+def has_opref(tree):
+    for it in tree:
+        if it[0] == "ref" and len(it) > 2:
+            return True
+        if it[0] == "scope" and has_opref(it[3]):
+            return True
+    return False
+
+
 def jobs(tier, seed):
     out = []
     for pid, tree in patterns():
         out.append({"id": f"pattern/{pid}", "tree": tree})
+        ot = with_opref(tree)
+        if ot is not None:
+            out.append({"id": f"opref/{pid}", "tree": ot})
         tw = rename_innermost(tree)
         if tw is not None:
             out.append({"id": f"rename-twin/{pid}", "tree": tree, "twin": tw})
@@ -237,10 +270,10 @@ def run(spec, cx):
     return tuple(outs)
 
 
-def expected(tree, cx):
+def expected(tree, cx, opwidth=2):
     tree = [_tuple(x) for x in tree]
-    events, labels = E.evaluate(tree, lambda h: cx.t(h), cx.t("p"), lambda a, n: a + n)
-    if any(ev[0] == "ref" and ev[1] is E.UNDEFINED for ev in events):
+    events, labels = E.evaluate(tree, lambda h: cx.t(h), cx.t("p"), lambda a, n: a + n, opwidth)
+    if any(ev[0] in ("ref", "opref") and ev[1] is E.UNDEFINED for ev in events):
         return None
     out = []
     for ev in events:
@@ -250,7 +283,10 @@ def expected(tree, cx):
             tag = ev[1]
             if isinstance(tag, tuple) and tag[0] == "const":
                 tag = L.B(tag[1])
-            out += [(tag >> (8 * k)) & 0xFF for k in range(3)]
+            if ev[0] == "opref":
+                out += [L.B({1: 0xA5, 2: 0xAD, 3: 0xAF}[opwidth])] + [(tag >> (8 * k)) & 0xFF for k in range(opwidth)]
+            else:
+                out += [(tag >> (8 * k)) & 0xFF for k in range(3)]
     return out
 
 
@@ -272,6 +308,20 @@ def _check_one(out, exp, p):
 
 def check(spec, cx, out):
     p = cx.t("p")
+    if has_opref([_tuple(x) for x in spec["tree"]]):
+        exp0 = expected(spec["tree"], cx, 2)
+        if exp0 is None:
+            return [_check_one(out[0], None, p)]
+        if out[0][0] != "ok":
+            # an operand whose width is inferred is evaluated while labels are still being resolved;
+            # when that early view and the final one cannot agree the assembly fails (C02): accepted
+            return [("inferred-width-reference-may-be-rejected", z3.BoolVal(True))]
+        blocks = out[0][1]
+        total = sum(len(blist(b)) for _, b in blocks)
+        w = total - (len(exp0) - 3) - 1
+        if w not in (1, 2, 3):
+            return [("resolves-to-innermost-definition", z3.BoolVal(False))]
+        return [_check_one(out[0], expected(spec["tree"], cx, w), p)]
     res = [_check_one(out[0], expected(spec["tree"], cx), p)]
     if spec.get("twin"):
         a, b = out[0], out[1]
